@@ -269,8 +269,8 @@ SUBS = {"objective": check_objective, "loader": check_loader,
 def run(ctx: Ctx) -> None:
     max_n = ctx.pick(8, 12)
     ctx.given("objective", objective_cases(max_n), check_objective,
-              quick=1200, thorough=16 * 6000)
+              quick=1200, thorough=16 * 5000)
     ctx.given("loader", loader_cases(max_n), check_loader,
-              quick=600, thorough=16 * 3000)
+              quick=600, thorough=16 * 2500)
     ctx.given("reject", reject_cases(max_n), check_reject,
-              quick=200, thorough=16 * 1000)
+              quick=200, thorough=16 * 800)
